@@ -562,6 +562,13 @@ func sameForAnalysis(a, b context) bool {
 	if a.state == stateText && b.state == stateText && plainContent(a.element) && plainContent(b.element) {
 		a.element, b.element = element{}, element{}
 	}
+	if a.state == stateAttr && b.state == stateAttr && valuePrefixClass(a) == "" && valuePrefixClass(b) == "" && !enumAttrVal(a) && !enumAttrVal(b) {
+		// In the value of an attribute such as title the static text seen so far and
+		// whether an action came before make no difference (mangle leaves them out, too),
+		// but they always differ between the start and the end of a loop body.
+		a.attr.value, b.attr.value = "", ""
+		a.attr.afterAction, b.attr.afterAction = false, false
+	}
 	return reflect.DeepEqual(a, b)
 }
 
